@@ -43,6 +43,15 @@ _KINDS = {
 
 def _fail(tag):
     kind = ARMED.get(tag)
+    if kind and kind != "None":
+        raise _KINDS[kind]("armed " + tag)
+    return 0
+
+
+def _failn(tag):
+    kind = ARMED.get(tag)
+    if kind == "None":
+        return 1            # the formula turns this into a None result
     if kind:
         raise _KINDS[kind]("armed " + tag)
     return 0
@@ -149,6 +158,7 @@ class Real:
         if hooks:
             self.m._t = _t          # names starting with '_' are hidden from listings
             self.m._fail = _fail
+            self.m._failn = _failn
 
     # -- object lookup ---------------------------------------------------------
     def space(self, path):
